@@ -234,16 +234,22 @@ def r3_refusals(ctx):
     if not ok:
         return
     bad = []
+    badparts = []
     n = 0
-    for seg, idv, ele, sub, nl, absolute in itertools.product((None, 'NM1'), (None, '1W'), (None, 1), (None, 2), (0, 1, 2), (True, False)):
+    for seg, idv, ele, sub, nl, absolute in itertools.product((None, 'NM1'), (None, '1W'), (None, 1), (None, 2), (0, 1, 2, 3), (True, False)):
         comp = (seg or '') + ('[%s]' % idv if idv else '') + ('%02d' % ele if ele else '') + ('-%d' % sub if sub else '')
-        parts = ['L%d' % i for i in range(1, nl + 1)] + ([comp] if comp else [])
+        # (loop ids may look like segment ids - the 997 has loops AK2, AK3 - and may recur)
+        loops = [['2000A'], ['2000A', '2300'], ['NM1', '2000A']][nl - 1] if 0 < nl < 4 else []
+        parts = list(loops) + ([comp] if comp else [])
         text = ('/' if absolute else '') + '/'.join(parts)
         hit = []
+        finals = []
 
         def on_node(nd, env):
             if nd.kind == 'raise':
                 hit.append(nd)
+            if nd is g.exit:
+                finals.append({k: env.get(k) for k in ('self.loop_list', 'self.seg_id', 'self.id_val', 'self.ele_idx', 'self.subele_idx', 'self.relative')})
 
         def unk(nd, env):
             raise AnalysisError('X12Path.__init__: a test cannot be decided for the path %r: %s' % (text, norm(nd.ast)))
@@ -254,10 +260,19 @@ def r3_refusals(ctx):
         got = bool(hit)
         want = (seg is None and idv is not None) or (seg is None and (ele is not None or sub is not None) and nl > 0)
         n += 1
+        if not want and not got and text not in ('', '/'):
+            wantp = {'self.loop_list': tuple(loops), 'self.seg_id': seg, 'self.id_val': idv, 'self.ele_idx': ele, 'self.subele_idx': sub,
+                     'self.relative': not absolute}
+            for fin in finals:
+                if fin != wantp and len(badparts) < 3:
+                    badparts.append('%r parses into loops %s, segment %r[%r] element %r component %r (relative=%r); written: loops %s, segment %r[%r] element %r component %r'
+                                    % (text, list(fin['self.loop_list'] or ()), fin['self.seg_id'], fin['self.id_val'], fin['self.ele_idx'], fin['self.subele_idx'],
+                                       fin['self.relative'], loops, seg, idv, ele, sub))
         if got != want:
             bad.append('%r (seg_id=%r qualifier=%r element=%r component=%r loops=%d): %s' % (text, seg, idv, ele, sub, nl, 'refused' if got else 'accepted'))
     yield Ob('path:X12Path.__init__ refusal conditions over all part combinations', not bad, ctx.floc(init),
              '' if not bad else bad[0], detail={'evaluated': n, 'counterexamples': bad[:5]})
+    yield Ob('path:X12Path.__init__ parsing yields exactly the parts written', not badparts, ctx.floc(init), '' if not badparts else badparts[0])
     # _parse_refdes
     fn = ctx.func('segment', 'Segment._parse_refdes')
     g = ctx.cfg(fn)
